@@ -66,11 +66,26 @@ class Sem:
     def lbase(self, c, loc):
         return "%s/%s/" % (self.eff_env(c)["l10n_base"], loc)
 
+    def missing(self, c):
+        return bool(self.cfgs[c].get("missing"))
+
     def configs_of(self, c):
+        """the config and its included configs; an include whose file is missing is skipped (ignore_missing_includes)"""
         out = [c]
         for ch in self.cfgs[c]["includes"]:
-            out += self.configs_of(ch)
+            if not self.missing(ch):
+                out += self.configs_of(ch)
         return out
+
+    def first_missing(self, c):
+        """the first include/exclude (processing order: includes depth first, then excludes) whose file cannot be loaded"""
+        for ch in list(self.cfgs[c]["includes"]) + list(self.cfgs[c]["excludes"]):
+            if self.missing(ch):
+                return ch
+            r = self.first_missing(ch)
+            if r is not None:
+                return r
+        return None
 
     def all_locales(self, c):
         s = set()
@@ -90,6 +105,8 @@ class Sem:
                 if all(self.cfgs[y]["file"] != self.cfgs[x]["file"] for y in configs):
                     configs.append(x)
             for x in self.cfgs[p]["excludes"]:
+                if self.missing(x):
+                    continue
                 if all(self.cfgs[y]["file"] != self.cfgs[x]["file"] for y in excludes):
                     excludes.append(x)
         excludes = [x for x in excludes if all(self.cfgs[y]["file"] != self.cfgs[x]["file"] for y in configs)]
@@ -413,13 +430,25 @@ def toml_of(spec, cname):
             lines.append("    test = [%s]" % ", ".join(q(x) for x in r["test"]))
         if r["locales"] is not None:
             lines.append("    locales = [%s]" % ", ".join(q(x) for x in r["locales"]))
+    for f in cf.get("filters", []):
+        lines.append("[[filters]]")
+        lines.append("    path = %s" % q(f["path"]))
+        if f.get("key") is not None:
+            lines.append("    key = %s" % q(f["key"]))
+        lines.append("    action = %s" % q(f["action"]))
+    spell = cf.get("inc_spell", {})
     for inc in cf["includes"]:
         lines.append("[[includes]]")
-        lines.append("    path = %s" % q(spec["configs"][inc]["file"]))
+        lines.append("    path = %s" % q(SPELL[spell.get(inc, "plain")] % spec["configs"][inc]["file"]))
     for exc in cf["excludes"]:
         lines.append("[[excludes]]")
-        lines.append("    path = %s" % q(spec["configs"][exc]["file"]))
+        lines.append("    path = %s" % q(SPELL[spell.get(exc, "plain")] % spec["configs"][exc]["file"]))
     return "\n".join(lines) + "\n"
+
+
+# how the path of an included / excluded configuration is written (all resolve to <root>/<file>; `cfgroot` is a variable of
+# the command-line env)
+SPELL = {"plain": "%s", "dot": "./%s", "updown": "zz/../%s", "absolute": "@R@/%s", "var": "{cfgroot}/%s", "slashes": ".//%s"}
 
 
 def materialise(spec):
@@ -428,8 +457,10 @@ def materialise(spec):
     for cname, cf in spec["configs"].items():
         p = os.path.join(root, cf["file"])
         os.makedirs(os.path.dirname(p), exist_ok=True)
+        if cf.get("missing") == "absent":
+            continue
         with open(p, "w") as f:
-            f.write(toml_of(spec, cname).replace("@R@", root))
+            f.write("[[paths]\n" if cf.get("missing") else toml_of(spec, cname).replace("@R@", root))
     for rel in spec["files"]:
         p = root + rel
         os.makedirs(os.path.dirname(p), exist_ok=True)
@@ -475,9 +506,49 @@ def _run(spec, root):
     from compare_locales import mozpath
     strip = Strip(root)
     sem = Sem(spec)
-    out = {"lines": [], "mlines": [], "impl": [], "violations": [], "stats": {}, "locales": []}
+    from impl import tomlcfg as TCF
+    import logging
+    logging.disable(logging.CRITICAL)
+    out = {"lines": [], "mlines": [], "impl": [], "violations": [], "stats": {}, "locales": [], "root": root,
+           "plines": [], "pimpl": [], "rlines": []}
     penv = {k: v.replace("@R@", root) for k, v in spec["parser_env"].items()}
-    projects = [TOMLParser().parse(os.path.join(root, spec["configs"][c]["file"]), env=dict(penv)) for c in spec["projects"]]
+    ignore = bool(spec.get("ignore"))
+    # ---- the TOML route: real TOMLParser vs the model run on toml.load of the same files (`c13.toml.parse`)
+    cfgfiles = [os.path.join(root, cf["file"]) for cf in spec["configs"].values()]
+    world = TCF.world_tokens(ignore, os.getcwd(), penv, TCF.load_world(cfgfiles))
+    projects = []
+    raised = False
+    for c in spec["projects"]:
+        top = os.path.join(root, spec["configs"][c]["file"])
+        deep = spec.get("deep")
+        out["plines"].append(" ".join(["c13.toml.parse"] + world + [TCF.enc(top), TCF.locs(deep)]))
+        gone = sem.first_missing(c)
+        try:
+            pc = TOMLParser().parse(top, env=dict(penv), ignore_missing_includes=ignore)
+            if gone is not None and not ignore:
+                out["violations"].append({"what": "config %s: the file of the include/exclude %s cannot be loaded and ignore_missing_includes is off, "
+                                          "but parse returned a configuration" % (spec["configs"][c]["file"], spec["configs"][gone]["file"]), "finding": None})
+            projects.append(pc)
+            if deep is not None:
+                # what `compare-locales --full` does; on a second parse, so that the enumeration below sees the file's locales
+                pc2 = TOMLParser().parse(top, env=dict(penv), ignore_missing_includes=ignore)
+                pc2.set_locales(list(deep), deep=True)
+                out["pimpl"].append(TCF.canon_pc(pc2))
+                bad = [strip(x.path) for x in pc2.configs if x.locales != list(deep)]
+                if bad:
+                    out["violations"].append({"what": "set_locales(%r, deep=True) did not reach the included configs %r" % (deep, bad), "finding": None})
+            else:
+                out["pimpl"].append(TCF.canon_pc(pc))
+        except Exception as e:      # noqa: every exception is a result of this stream
+            raised = True
+            out["pimpl"].append(TCF.canon_exc(e))
+            want = None if (gone is None or ignore) else os.path.join(root, spec["configs"][gone]["file"])
+            if type(e).__name__ != "ConfigNotFound" or want is None or e.filename != want:
+                out["violations"].append({"what": "config %s: parse raised %s, expected %s" % (
+                    spec["configs"][c]["file"], TCF.canon_readable(TCF.canon_exc(e)).replace(root, ""),
+                    "a configuration" if want is None else "ConfigNotFound for " + strip(want)), "finding": None})
+    if raised:
+        return out
 
     # the configuration objects against the generated TOML, by construction
     def check_cfg(pc, cname):
@@ -489,13 +560,28 @@ def _run(spec, root):
             out["violations"].append({"what": "config %s: environ is %r, expected file [env] overridden by the parser env %r (overridden keys: %r)" % (
                 cf["file"], strip_env(pc.environ, root), strip_env(want_env, root), overridden), "finding": None})
         facts = (strip(pc.path), strip(pc.root), pc.locales, len(pc.paths), len(pc.children), len(pc.excludes))
-        want = ("/" + cf["file"], "", cf["locales"], len(cf["rules"]), len(cf["includes"]), len(cf["excludes"]))
+        incs = [n for n in cf["includes"] if not sem.missing(n)]
+        excs = [n for n in cf["excludes"] if not sem.missing(n)]
+        want = ("/" + cf["file"], "", cf["locales"], len(cf["rules"]), len(incs), len(excs))
         if facts != want:
             out["violations"].append({"what": "config %s parsed as %r, expected %r" % (cf["file"], facts, want), "finding": None})
             return
-        for ch, n in zip(pc.children, cf["includes"]):
+        # every [[paths]] table is one path rule, with its own locales / test / reference
+        for d, r in zip(pc.paths, cf["rules"]):
+            got = (d.get("locales"), d.get("test"), "reference" in d)
+            if got != (r["locales"], r["test"], bool(r["ref"])):
+                out["violations"].append({"what": "config %s: path rule %s has (locales, test, reference?) = %r, expected %r" % (
+                    cf["file"], d["l10n"].pattern, got, (r["locales"], r["test"], bool(r["ref"]))), "finding": None})
+        nrules = sum(len([f["path"]] if isinstance(f["path"], str) else f["path"]) *
+                     (1 if (f.get("key") is None or isinstance(f["key"], str)) else len(f["key"])) for f in cf.get("filters", []))
+        if len(pc.rules) != nrules:
+            out["violations"].append({"what": "config %s: %d compiled filter rules, expected %d (one per path and key)" % (cf["file"], len(pc.rules), nrules), "finding": None})
+        if sorted(pc.all_locales) != sorted(sem.all_locales(cname)):
+            out["violations"].append({"what": "config %s: all_locales is %r, expected %r (own, per-rule and included configs, not the excludes)" % (
+                cf["file"], list(pc.all_locales), sorted(sem.all_locales(cname))), "finding": None})
+        for ch, n in zip(pc.children, incs):
             check_cfg(ch, n)
-        for ch, n in zip(pc.excludes, cf["excludes"]):
+        for ch, n in zip(pc.excludes, excs):
             check_cfg(ch, n)
 
     for pc, cname in zip(projects, spec["projects"]):
@@ -506,7 +592,8 @@ def _run(spec, root):
     for d, dirs, files in os.walk(root):
         for f in files:
             fsfiles.append(mozpath.join(d, f))
-    assert sorted(strip(p) for p in fsfiles) == sorted(list(spec["files"]) + ["/" + cf["file"] for cf in spec["configs"].values()]), "tree"
+    assert sorted(strip(p) for p in fsfiles) == sorted(list(spec["files"]) + ["/" + cf["file"] for cf in spec["configs"].values()
+                                                                               if cf.get("missing") != "absent"]), "tree"
     universe = fsfiles + [root + p for p in spec["lookups"] if root + p not in fsfiles]
     mbase = root + "/merge" if spec["mergebase"] else None
     sem.files = set(strip(p) for p in fsfiles)
@@ -535,6 +622,13 @@ def _run(spec, root):
         out["lines"].append(model_line(projects, loc, mbase, universe, len(fsfiles), strip, REFERENCE_LOCALE))
         # ---- the same case for the composed model (pattern TEXTS instead of match tables)
         out["mlines"].append(model_line_m(projects, loc, mbase, universe, len(fsfiles), strip, root, REFERENCE_LOCALE))
+        # ---- and for parsing composed with enumeration: the toml.load dictionaries, the env and the tree (`c13.toml.run`)
+        out["rlines"].append(" ".join(
+            ["c13.toml.run"] + world + ["-" if loc is None else enc(loc), "-" if mbase is None else enc(mbase),
+                                        "P", str(len(spec["projects"]))] +
+            [enc(os.path.join(root, spec["configs"][c]["file"])) for c in spec["projects"]] +
+            ["S", str(len(universe))] + [enc(p) for p in universe] + ["U", str(len(universe))] + [str(i) for i in range(len(universe))] +
+            ["F", str(len(fsfiles)), "TT", str(len(TESTS))] + [enc(t) for t in TESTS] + [enc(root)]))
         # ---- oracle
         if res is not None and not spec.get("mismatch"):
             uni = [strip(p) for p in universe]
